@@ -18,6 +18,7 @@ EXPLANATION = (
     'Also decided: the default error hook cannot raise (format fields that index their argument are modelled); every serialised exception object carries the traceback text and the error reply is sent on every path; definite assignment in the reporting modules. '
     "Also decided (round 7): The property gates call fget/fset directly, so the accessor's own exception is what leaves the gate. "
     'Also decided (round 8): A `with contextlib.suppress(X)` around user code counts as a handler that swallows X. '
+    "Also decided (round 10): Replies are encoded by a per-message call of the library's module-level encoder (shared from C01): no encoder object with a buffer is kept on the process-wide serializer. "
     "Also decided (round 9): The stream failure path's bookkeeping cannot replace the generator's exception; the batch wrapper encodes its exception through class_to_dict. "
     "Not decided: equality of args/attributes after "
     "the trip (third-party codecs), all classes x argument shapes."
